@@ -72,7 +72,7 @@ func emit(fn, args, impl, oracle string) {
 	}
 	// a panic of the library is a failure of every property (none of the exercised entry points is documented to
 	// panic): where a case has no oracle for its value, the oracle is at least that
-	if oracle == "-" && (strings.HasPrefix(impl, "PANIC") || strings.HasPrefix(impl, "panic")) {
+	if oracle == "-" && !strings.HasPrefix(fn, "o.") && (strings.HasPrefix(impl, "PANIC") || strings.HasPrefix(impl, "panic")) { // o.*: cases about the ORACLE's own behaviour
 		oracle = "nopanic"
 	}
 	fmt.Fprintf(out, "%s\t%s\t%s\t%s\n", fn, args, impl, oracle)
